@@ -2,18 +2,21 @@
    domain for which the round-trip theorem is proved (Proofs/C01RoundP.v).  Definitions only.
 
    norm_item:   value forms become pointer forms (decoders allocate); the fields of a struct are listed in struct
-                order; instants are UTC whole seconds; a lone language-tagged string loses its tag; a one-element
-                list in a single-item property is that element.  Nothing else changes: every string, number,
-                IRI, list member and nested object is kept.
-   wf_item:     a boolean predicate.  IRIs are absolute URLs of the grammar of Model/Url.v made of plain ASCII;
-                objects carry only fields their type has, each with a value of the field's Go type that is set
-                (non-zero), a type name that selects their struct, and are not empty; lists are non-empty, hold
-                IRIs and objects, pairwise distinct under ItemsEqual; texts are non-empty valid UTF-8; numbers,
-                instants and durations are in the ranges of the leaf theorems.
-                Not in the class (the gap of the theorem, named in Props/C01.v): Source, Endpoints and
-                PublicKey values, nil-like entries (typed nil pointers, empty IRIs, empty lists), IRIs lists
-                (the Go type IRIs) and lists nested directly in lists. *)
-From AP.Model Require Import Prelude Bytes Vocab Pred Url IriEq Nlv Json Text Equal Coll Dispatch Layout JsonTables JsonLeaf JsonCheck JsonDec.
+                order; instants are UTC whole seconds; a lone language-tagged string loses its tag (also as the
+                content of a source); a one-element list in a single-item property is that element; the members of
+                an endpoints value are listed in struct order.  Nothing else changes: every string, number, IRI,
+                list member and nested object is kept.
+   wf_item:     a boolean predicate.  IRIs are absolute URLs of the wide grammar of Model/UrlU.v (iri_ok: valid UTF-8,
+                no quote / backslash / control byte, a scheme and a host; the plain grammar of Model/Url.v is inside:
+                iri_ok_plain); objects carry only fields their type has, each with a value of the field's Go type
+                that is set (non-zero), a type name that selects their struct, and are not empty; lists are non-empty,
+                hold IRIs and objects, pairwise distinct under ItemsEqual; texts are non-empty valid UTF-8; numbers,
+                instants and durations are in the ranges of the leaf theorems; a source has a media type or a content
+                (or both), an endpoints value a non-empty set of the six names with well-formed items, a public key
+                an id, an owner or a pem.
+                Not in the class (the gap of the theorem, named in Props/C01.v): nil-like entries (typed nil
+                pointers, empty IRIs, empty lists, an empty Endpoints, a content that writes nothing), IRIs lists (the Go type IRIs) and lists nested directly in lists. *)
+From AP.Model Require Import Prelude Bytes Vocab Pred Url UrlU Utf8 IriEq Nlv Json Text Equal Coll Dispatch Layout JsonTables JsonLeaf JsonCheck JsonDec JsonRoundCheck.
 Local Open Scope Z_scope.
 
 Section Norm.
@@ -48,6 +51,11 @@ Section Norm.
                          match l with [] => [] | x :: r => norm_item x :: go r end) l))
     | FNlv l => FNlv (norm_nlv l)
     | FTime t => FTime (norm_time t)
+    | FSource mt c => FSource mt (norm_nlv c)
+    | FEndpoints (Some e) =>
+        FEndpoints (Some (endpoints_in_struct_order
+                            ((fix go (e : list (fid * item)) : list (fid * item) :=
+                                match e with [] => [] | (f, i) :: r => (f, norm_item i) :: go r end) e)))
     | _ => v
     end.
 
@@ -55,9 +63,17 @@ Section Norm.
 End Norm.
 
 (* ---------------------------------------------------------------- the domain *)
-Definition iri_ok (s : bytes) : bool :=
+(* an IRI: valid UTF-8 without quote, backslash or byte below 0x20, to which net/url gives a scheme and a host
+   (the WIDE grammar of Model/UrlU.v: bytes >= 0x80, percent-escapes, spaces, userinfo, IP literals), and not the
+   nil IRI.  This is what asIRI needs to hand the text back unchanged; it contains the plain grammar of Model/Url.v
+   (iri_ok_plain, Proofs/C01ItemP.iri_ok_of_plain). *)
+Definition iri_ok_plain (s : bytes) : bool :=
   match url_classify s with UValid _ => true | _ => false end
   && forallb safe_ascii s && negb (is_nil (IIri false s)).
+Definition iri_ok (s : bytes) : bool :=
+  utf8_valid s && negb (fj_has_special s)
+  && match url_classify_u s with UValid _ => true | _ => false end
+  && negb (is_nil (IIri false s)).
 
 (* non-empty, every entry a non-empty valid UTF-8 tag and text, tags pairwise different (of several values under
    one tag the writer keeps the first) *)
@@ -144,10 +160,25 @@ Section Wf.
     | TInt64, FInt z => negb (z =? 0) && (- 10 ^ 18 <? z) && (z <? 10 ^ 18)
     | TBool, FBool b => b
     | TFloat, FFloat m => negb (m =? 0) && (Z.abs m <? 10 ^ 46)
+    (* the three leaf structs: every part either unset or a well-formed string / text / item, the struct not empty *)
+    | TSource, FSource mt c =>
+        match mt with [] => true | _ => string_ok mt end
+        && match c with None => true | Some l => text_ok l end
+        && negb (fval_is_zero v)
+    | TEndpoints, FEndpoints (Some ((_ :: _) as e)) =>
+        nodup_fid_list (map fst e) && forallb (fun p => existsb (fid_beq (fst p)) endpoints_struct_order) e
+        && (fix go (l : list (fid * item)) : bool :=
+              match l with [] => true | (_, y) :: r => wf_item y && go r end) e
+    | TPubKey, FPubKey id owner pem =>
+        match id with [] => true | _ => string_ok id end
+        && match owner with [] => true | _ => string_ok owner end
+        && match pem with [] => true | _ => string_ok pem end
+        && negb (fval_is_zero v)      (* Actor.MarshalJSON writes the key when id, owner or pem is set *)
     | _, _ => false
     end.
 
-  (* decoder fuel an item needs: one per level of objects (members of a list are read at the level of the list) *)
+  (* a bound on the decoder fuel an item needs: one per level of objects (members of a list are read at the level of
+     the list); a leaf struct counts as a level too (it is one in the document, though it costs the decoder no fuel) *)
   Fixpoint ddepth (i : item) : nat :=
     match i with
     | IObj _ _ fs =>
@@ -162,6 +193,9 @@ Section Wf.
     | FItem i => ddepth i
     | FItems (Some l) =>
         (fix go (l : list item) : nat := match l with [] => O | x :: r => Nat.max (ddepth x) (go r) end) l
+    | FEndpoints (Some e) =>       (* a leaf struct is one more level of the document *)
+        S ((fix go (l : list (fid * item)) : nat := match l with [] => O | (_, x) :: r => Nat.max (ddepth x) (go r) end) e)
+    | FSource _ _ | FPubKey _ _ _ => 1%nat
     | _ => O
     end.
 End Wf.
